@@ -955,7 +955,8 @@ class GroupBy:
             for j, result in enumerate(results_one_value):
                 result = result[:-1]  # ignore null group
                 if self._group_key_pointers is None:
-                    pointer = slice(None)
+                    # codes already unified: every group but the trailing null slot
+                    pointer = slice(0, len(count))
                 else:
                     pointer = self._group_key_pointers[first_chunk_in + j]
                 result_count = counts_one_value[j][:-1]  # ignore null group
